@@ -92,7 +92,8 @@ def check(ctx: Ctx, stream: str, i: int, op, label: str) -> None:
         if st2 != 'ok' or not gen.same_structure(real_red, red.out_structure()):
             ctx.fail(stream, i, f'reduced-out-structure-dishonest:{type(red).__name__}',
                      f'the reduced operator declares {red.out_structure()} but its mv returns {real_red}', cfg)
-    # correspondence: Level-A structure rules
+    # correspondence: Level-A structure rules; and the operator lies in the domain of the closed theorems
+    ctx.in_domain(stream, i, esx, cfg)
     rep = ctx.model.ask(['structs', esx])
     if rep[0] != 'ok' or first_diff(rep[1], struct(ins)) is not None or first_diff(rep[2], struct(outs)) is not None \
             or int(rep[3]) != op.in_size() or int(rep[4]) != op.out_size():
@@ -201,6 +202,11 @@ def param_shape_case(ctx: Ctx, stream: str, i: int) -> None:
     st, op = safe(mk)
     ctx.count(f'param-shape:{which}:' + ('accepted' if st == 'ok' else 'refused'))
     if st == 'ok':
+        # what the constructor accepts satisfies the validity predicate of the closed theorems (stokesOK: the angles
+        # broadcast INTO the leaf shape; toeplitzOK: the band batch broadcasts TO the leading axes)
+        stv, esxv = safe(Encoder().op, op)
+        if stv == 'ok':
+            ctx.in_domain(stream, i, esxv, cfg)
         ins, outs = op.in_structure(), op.out_structure()
         st1, real = safe(jax.eval_shape, op.mv, ins)
         if st1 != 'ok':
